@@ -270,4 +270,16 @@ def _has_chol_upper(case):
     return any(n["op"] == "Chol" and n.get("upper") for n in R.walk(case["recipe"]))
 
 
-TRIGGERS = {"chol_upper": _has_chol_upper}
+def _transposeperm_batched(case):
+    """a TransposePermutation node inside a recipe whose dense value has batch dimensions"""
+    from lov import refmodel
+
+    if not any(n["op"] == "TransposePermutation" for n in R.walk(case["recipe"])):
+        return False
+    try:
+        return refmodel.dense(case["recipe"]).dim() > 2
+    except Exception:
+        return False
+
+
+TRIGGERS = {"chol_upper": _has_chol_upper, "transposeperm_batched": _transposeperm_batched}
